@@ -96,6 +96,12 @@ def run_companion(repo, companion_file, tests, seed=1, cases=None, timeout=420, 
             m = re.match(r"COMPANION-OK cases=(\d+)", ln.strip())
             if m:
                 res["cases"] += int(m.group(1))
+        if not res["witnesses"] and re.search(r"signal: 6|SIGABRT|memory allocation of \d+ bytes failed|signal: 11|SIGSEGV", out):
+            # the test process itself died: the real code aborted (never acceptable, C15) -- report the last stage marker
+            stages = [ln.strip() for ln in out.split("\n") if ln.strip().startswith("STAGE ")]
+            m = re.search(r"memory allocation of \d+ bytes failed", out)
+            res["witnesses"].append(json.dumps({"kind": "C15", "what": "the process aborted while the real code ran (abort / allocation failure)",
+                                                "detail": (m.group(0) + "; " if m else "") + (stages[-1] if stages else "stage unknown")}))
         if res["witnesses"]:
             res["status"] = "witness"
         elif "test result: ok" in out and p.returncode == 0:
